@@ -125,8 +125,8 @@ func checkpath(file string) string {
 	privfile := file
 	if IsAnyBitsSet(Lprivacypath) {
 		for k, v := range knownPathMap {
-			if strings.HasPrefix(privfile, k) {
-				privfile = strings.ReplaceAll(privfile, k, v)
+			if underDir(privfile, k) {
+				privfile = v + privfile[len(k):] // replace the directory prefix only
 			}
 		}
 
@@ -152,6 +152,13 @@ func checkpath(file string) string {
 		}
 	}
 	return privfile
+}
+
+// underDir reports whether file is the directory dir itself or lies
+// below it: dir must end on a path-component boundary of file.
+func underDir(file, dir string) bool {
+	return dir != "" && strings.HasPrefix(file, dir) &&
+		(len(file) == len(dir) || os.IsPathSeparator(file[len(dir)]))
 }
 
 func checkedfuncname(name string) string {
